@@ -148,6 +148,16 @@ fn scenario(name: &str) -> Option<String> {
                     return fail(format!("expected=one error event code=422 who=me msg=why actual={ev1:?}")); }
                 if ev2.len() != 1 || get(&ev2[0], "level") != Some("\"error\"") || get(&ev2[0], "code") != Some("500") || get(&ev2[0], "msg") != Some("\"boom\"") {
                     return fail(format!("expected=one error event code=500 msg=boom actual={ev2:?}")); }
+                // the error's own response whatever its status (an early-return redirect, a 2xx carried by an Err): returned as it is,
+                // its code logged at error level
+                for code in [200u16, 204, 303, 399, 400, 404, 499, 500, 503, 599, 600] {
+                    let e: Error = Response::text(code, "abc").into();
+                    let r = log_response(Err(e)); let ev = drain(&rx);
+                    match r { Ok(a) => { if a.code != code || a.body.len() != Some(3) { return fail(format!("expected=the error's own {code} response actual={} with body length {:?}", a.code, a.body.len())); } }
+                              Err(_) => return fail("expected=Ok actual=LoggerStopped".into()) }
+                    let cs = code.to_string();
+                    if ev.len() != 1 || get(&ev[0], "level") != Some("\"error\"") || get(&ev[0], "code") != Some(cs.as_str()) { return fail(format!("expected=one error event code={code} actual={ev:?}")); }
+                }
                 None
             }
             "wrapper" => {
